@@ -65,7 +65,9 @@ def alphabet():
             '', '0', '5', '-1', ' 5', '٣', '1e3', sh, sh_none, sh.upper(), sh[:-1], sh + 'a',
             'z' * 64, sh[:-2] + '  ', ' ' * 64, '73' + ' ' * 62, sh[:32] + '  ' + sh[32:],
             'badclient 1.0', tx5[:-2] + '\t\n', tx5, tx2, '00' * 32, 'tx', 'txid', 'block_header', 'merkle_root', 'block_hash',
-            'x' * 10000, [], [1], [[]], {}, {'a': {'b': [1]}}, {'hosts': {'example.com': {'tcp_port': True}}}]
+            'x' * 10000, [], [1], [[]], {}, {'a': {'b': [1]}}, {'hosts': {'example.com': {'tcp_port': True}}},
+            {'hosts': {'a..b': {'tcp_port': 50001}}}, {'hosts': {'a' * 64 + '.com': {'ssl_port': 50002}}},
+            {'hosts': {'exampéle.com': {'tcp_port': 50001}}, 'protocol_min': '1.4', 'protocol_max': '1.4.2'}]
     small = [None, True, 0, 1, -1, tip, tip + 1, 5, 2017, 2 ** 64, 10 ** 400, 0.5, inf, float('nan'),
              '', '5', sh, sh_none, sh[:-1], sh[:-2] + '  ', tx5, tx2, 'tx', 'merkle_root', [], {}, [1], 'x' * 10000,
              -(10 ** 400), 252, 253]
@@ -74,7 +76,7 @@ def alphabet():
     return full, small, tiny
 
 
-CONFIGS = {None: {}, 'drop': {'DROP_CLIENT': 'badclient.*'}}
+CONFIGS = {None: {}, 'drop': {'DROP_CLIENT': 'badclient.*'}, 'peers-on': {'PEER_DISCOVERY': 'on'}}
 HEX64 = __import__('re').compile(r'[0-9a-fA-F]{64}\Z')
 
 
@@ -282,6 +284,10 @@ def cases_for(tier):
                     cases.append(dict(method=method, arity=arity, alpha=a, handshake=hs))
     # the same requests against a server run with the documented DROP_CLIENT setting
     cases += [dict(c, config='drop') for c in cases if c['method'] == 'server.version']
+    # ... and the peer methods against a server with peer discovery on (the default setting)
+    cases += [dict(c, config='peers-on') for c in cases
+              if c['method'] in ('server.add_peer', 'server.peers.subscribe', 'server.features')
+              and 'config' not in c]
     return cases
 
 
